@@ -28,9 +28,10 @@ fn unpack(px: &[[f32; 3]], n: usize) -> Vec<f32> {
 pub fn to_linear(t: TC, xs: &[f32]) -> Result<Vec<f32>, String> {
     let px = pack(xs);
     let len = px.len();
-    let rgb = Rgb::new(px, len, 1, t, CP::BT709).map_err(|e| format!("{e:?}"))?;
+    let (w, h) = crate::img::shape_of(len);
+    let rgb = Rgb::new(px, w, h, t, CP::BT709).map_err(|e| format!("{e:?}"))?;
     let lin = guarded(|| LinearRgb::try_from(rgb))?.map_err(|e| format!("conversion error {e:?}"))?;
-    if lin.width() != len || lin.height() != 1 {
+    if lin.width() != w || lin.height() != h {
         return Err("dims changed".into());
     }
     Ok(unpack(lin.data(), xs.len()))
@@ -39,9 +40,10 @@ pub fn to_linear(t: TC, xs: &[f32]) -> Result<Vec<f32>, String> {
 pub fn to_gamma(t: TC, xs: &[f32]) -> Result<Vec<f32>, String> {
     let px = pack(xs);
     let len = px.len();
-    let lin = LinearRgb::new(px, len, 1).map_err(|e| format!("{e:?}"))?;
+    let (w, h) = crate::img::shape_of(len);
+    let lin = LinearRgb::new(px, w, h).map_err(|e| format!("{e:?}"))?;
     let rgb = guarded(|| Rgb::try_from((lin, t, CP::BT709)))?.map_err(|e| format!("conversion error {e:?}"))?;
-    if rgb.width() != len || rgb.height() != 1 || rgb.transfer() != t || rgb.primaries() != CP::BT709 {
+    if rgb.width() != w || rgb.height() != h || rgb.transfer() != t || rgb.primaries() != CP::BT709 {
         return Err("dims or labels changed".into());
     }
     Ok(unpack(rgb.data(), xs.len()))
